@@ -329,7 +329,7 @@ package priority
 //@   [C02] forall k :: gOutNP[k] <= gInN[k]
 
 //@ pred DRAINED(dsc)
-//@   [C02 C07] forall k :: (dom(dsc.inputs, k) && dsc.inputs[k].Drained) ==> in(gClosedIn, k)
+//@   [C02 C06 C07] forall k :: (dom(dsc.inputs, k) && dsc.inputs[k].Drained) ==> in(gClosedIn, k)
 
 //@ func safeDivide
 //@   requires [*] divider != nil
@@ -413,19 +413,19 @@ package priority
 //@   requires [* C01] RINV(dsc)
 //@   requires [C02 C07 C15] !gDivErr
 //@   requires [C16] !gCompleted
-//@   requires [C02 C07] DRAINED(dsc)
+//@   requires [C02 C06 C07] DRAINED(dsc)
 //@   modifies content(dsc.tactic), content(dsc.actual), content(dsc.inputs), gInfl, gInflP, gClock, gClosedIn, gStop, gIn, gInN, gOutNP, gPendSet, gPendP
 //@   ensures [*] WF(dsc)
 //@   ensures [* C01] RINV(dsc)
 //@   ensures [* C01] result == msum(dsc.actual) - old(msum(dsc.actual))
-//@   ensures [C02 C07] DRAINED(dsc)
+//@   ensures [C02 C06 C07] DRAINED(dsc)
 //@   ensures [* C16] old(gStop) ==> gStop
 //@   loop 0
 //@     invariant [C02] SEQ2(dsc)
 //@     invariant [*] WF(dsc)
 //@     invariant [* C01] RINV(dsc)
 //@     invariant [* C01] processed == msum(dsc.actual) - old(msum(dsc.actual))
-//@     invariant [C02 C07] DRAINED(dsc)
+//@     invariant [C02 C06 C07] DRAINED(dsc)
 //@     invariant [* C16] old(gStop) ==> gStop
 
 //@ func (*Discipline).iou
@@ -437,19 +437,19 @@ package priority
 //@   requires [* C01] RINV(dsc)
 //@   requires [C02 C07 C15] !gDivErr
 //@   requires [C16] !gCompleted
-//@   requires [C02 C07] DRAINED(dsc)
+//@   requires [C02 C06 C07] DRAINED(dsc)
 //@   modifies content(dsc.tactic), content(dsc.actual), content(dsc.inputs), gInfl, gInflP, gClock, gClosedIn, gStop, gIn, gInN, gOutNP, gPendSet, gPendP
 //@   ensures [*] WF(dsc)
 //@   ensures [* C01] RINV(dsc)
 //@   ensures [* C01] result == msum(dsc.actual) - old(msum(dsc.actual))
-//@   ensures [C02 C07] DRAINED(dsc)
+//@   ensures [C02 C06 C07] DRAINED(dsc)
 //@   ensures [* C16] old(gStop) ==> gStop
 //@   loop 0
 //@     invariant [C02] SEQ2(dsc)
 //@     invariant [*] WF(dsc)
 //@     invariant [* C01] RINV(dsc)
 //@     invariant [* C01] processed == msum(dsc.actual) - old(msum(dsc.actual))
-//@     invariant [C02 C07] DRAINED(dsc)
+//@     invariant [C02 C06 C07] DRAINED(dsc)
 //@     invariant [* C16] old(gStop) ==> gStop
 
 //@ func (*Discipline).prioritize
@@ -460,19 +460,19 @@ package priority
 //@   requires [* C01] RINV(dsc)
 //@   requires [C02 C07 C15] !gDivErr
 //@   requires [C16] !gCompleted
-//@   requires [C02 C07] DRAINED(dsc)
+//@   requires [C02 C06 C07] DRAINED(dsc)
 //@   modifies content(dsc.tactic), content(dsc.actual), content(dsc.inputs), gInfl, gInflP, gClock, gClosedIn, gStop, gIn, gInN, gOutNP, gPendSet, gPendP
 //@   ensures [*] WF(dsc)
 //@   ensures [* C01] RINV(dsc)
 //@   ensures [* C01] result == msum(dsc.actual) - old(msum(dsc.actual))
-//@   ensures [C02 C07] DRAINED(dsc)
+//@   ensures [C02 C06 C07] DRAINED(dsc)
 //@   ensures [* C16] old(gStop) ==> gStop
 //@   loop 0
 //@     invariant [C02] SEQ2(dsc)
 //@     invariant [*] WF(dsc)
 //@     invariant [* C01] RINV(dsc)
 //@     invariant [* C01] processed == msum(dsc.actual) - old(msum(dsc.actual))
-//@     invariant [C02 C07] DRAINED(dsc)
+//@     invariant [C02 C06 C07] DRAINED(dsc)
 //@     invariant [* C16] old(gStop) ==> gStop
 
 //@ func (*Discipline).getLimitedFeedback
@@ -501,13 +501,13 @@ package priority
 //@   requires [*] WF(dsc)
 //@   requires [C02 C07 C15] !gDivErr
 //@   requires [C16] !gCompleted
-//@   requires [C02 C07] DRAINED(dsc)
+//@   requires [C02 C06 C07] DRAINED(dsc)
 //@   modifies content(dsc.tactic), content(dsc.actual), content(dsc.inputs), dsc.uncrowded, anyelems(dsc.uncrowded), dsc.useful, gDivErr, gInfl, gInflP, gClock, gClosedIn, gStop, gIn, gInN, gOutNP, gPendSet, gPendP
 //@   ensures [*] WF(dsc)
 //@   ensures [C02 C07 C15] gDivErr ==> result1 == ErrDividerBad
 //@   ensures [C02 C07 C15] result1 == nil ==> !gDivErr
 //@   ensures [C02 C07 C15] result1 != nil ==> gDivErr
-//@   ensures [C02 C07] DRAINED(dsc)
+//@   ensures [C02 C06 C07] DRAINED(dsc)
 //@   ensures [* C16] old(gStop) ==> gStop
 
 // ---------------------------------------------------------------- C17: inputs added and removed
@@ -554,7 +554,7 @@ package priority
 //@   ensures [*] PLIST(dsc)
 //@   ensures [* C17] forall k :: dom(dsc.inputs, k) <==> (old(dom(dsc.inputs, k)) || k == priority)
 //@   ensures [* C17] forall k :: k != priority ==> dsc.inputs[k] == old(dsc.inputs[k])
-//@   ensures [* C02 C07 C17] registered-channel: dsc.inputs[priority].Channel == channel && !dsc.inputs[priority].Drained
+//@   ensures [* C02 C06 C07 C17] registered-channel: dsc.inputs[priority].Channel == channel && !dsc.inputs[priority].Drained
 
 //@ func (*Discipline).updateInputs
 //@   requires [*] WFS(dsc)
@@ -577,14 +577,14 @@ package priority
 //@   requires [*] strictlyDesc(dsc.priorities)
 //@   requires [*] PLIST(dsc)
 //@   requires [*] forall k :: in(gPset, k) <==> (dom(dsc.inputs, k) || k == priority)
-//@   requires [C02 C07] forall k :: (k != priority && dom(dsc.inputs, k) && dsc.inputs[k].Drained) ==> in(gClosedIn, k)
-//@   requires [C02 C07] !in(gClosedIn, priority)
+//@   requires [C02 C06 C07] forall k :: (k != priority && dom(dsc.inputs, k) && dsc.inputs[k].Drained) ==> in(gClosedIn, k)
+//@   requires [C02 C06 C07] !in(gClosedIn, priority)
 //@   modifies [C17 C01] content(dsc.inputs), dsc.priorities, anyelems(dsc.priorities), dsc.strategic, gPerm, gInv, gDivErr
 //@   ensures [*] WF(dsc)
 //@   ensures [C17] added-channel-is-registered-under-priority: dsc.inputs[priority].Channel == channel && !dsc.inputs[priority].Drained && in(gPset, priority)
 //@   ensures [C17 C01] in-flight-accounting-untouched: forall k :: dsc.actual[k] == old(dsc.actual[k])
 //@   ensures [C17] other-inputs-untouched: forall k :: k != priority ==> dsc.inputs[k] == old(dsc.inputs[k])
-//@   ensures [C02 C07] DRAINED(dsc)
+//@   ensures [C02 C06 C07] DRAINED(dsc)
 //@   ensures [C02 C07 C15] gDivErr == old(gDivErr)
 
 // removeInput runs right after a RemoveInput request was received (gPset no longer contains priority).
@@ -593,13 +593,13 @@ package priority
 //@   requires [*] strictlyDesc(dsc.priorities)
 //@   requires [*] PLIST(dsc)
 //@   requires [*] forall k :: in(gPset, k) <==> (dom(dsc.inputs, k) && k != priority)
-//@   requires [C02 C07] DRAINED(dsc)
+//@   requires [C02 C06 C07] DRAINED(dsc)
 //@   modifies [C17 C01] content(dsc.inputs), content(dsc.tactic), dsc.priorities, anyelems(dsc.priorities), dsc.strategic, gDivErr
 //@   ensures [*] WF(dsc)
 //@   ensures [C17] removed-input-is-never-read-again: !dom(dsc.inputs, priority) && !in(gPset, priority)
 //@   ensures [C17 C01] in-flight-accounting-untouched: forall k :: dsc.actual[k] == old(dsc.actual[k])
 //@   ensures [C17] other-inputs-untouched: forall k :: k != priority ==> dsc.inputs[k] == old(dsc.inputs[k])
-//@   ensures [C02 C07] DRAINED(dsc)
+//@   ensures [C02 C06 C07] DRAINED(dsc)
 //@   ensures [C02 C07 C15] gDivErr == old(gDivErr)
 
 //@ func (*Discipline).loop
@@ -609,7 +609,7 @@ package priority
 //@   requires [*] WF(dsc)
 //@   requires [C02 C07 C15] !gDivErr
 //@   requires [C16] !gCompleted
-//@   requires [C02 C07] DRAINED(dsc)
+//@   requires [C02 C06 C07] DRAINED(dsc)
 //@   modifies content(dsc.tactic), content(dsc.actual), content(dsc.inputs), dsc.priorities, anyelems(dsc.priorities), dsc.strategic, dsc.uncrowded, dsc.useful, gPerm, gInv, gDivErr, gInfl, gInflP, gClock, gClosedIn, gStop, gGraceful, gPset, gIn, gInN, gOutNP, gPendSet, gPendP
 //@   ensures [*] WF(dsc)
 //@   ensures [* C07 C15] gStop || gInfl == 0
@@ -622,7 +622,7 @@ package priority
 //@     invariant [C02] SEQ2(dsc)
 //@     invariant [*] WF(dsc)
 //@     invariant [C02 C07 C15] !gDivErr
-//@     invariant [C02 C07] DRAINED(dsc)
+//@     invariant [C02 C06 C07] DRAINED(dsc)
 
 //@ func (*Discipline).main
 //@   requires [C06 C07] interrupter-armed: !gIntStopped
@@ -630,7 +630,7 @@ package priority
 //@   requires [*] WF(dsc)
 //@   requires [C02 C07 C15] !gDivErr
 //@   requires [C16] !gCompleted
-//@   requires [C02 C07] DRAINED(dsc)
+//@   requires [C02 C06 C07] DRAINED(dsc)
 //@   modifies content(dsc.tactic), content(dsc.actual), content(dsc.inputs), dsc.priorities, anyelems(dsc.priorities), dsc.strategic, dsc.uncrowded, dsc.useful, gPerm, gInv, gDivErr, gInfl, gInflP, gClock, gClosedIn, gStop, gGraceful, gPset, gCompleted, gIn, gInN, gOutNP, gPendSet, gPendP, gIntStopped
 
 //@ func Opts.isValid
